@@ -400,6 +400,24 @@ def check_C18(rep, prog, tier):
             inconc += ['%s %s: %s' % (which, pat, x) for x in inc[:2]]
             if res['samples'] and len(rep.samples) < 4:
                 rep.samples += res['samples'][:1]
+    # nested names with bytes below '/': the two streams must stay aligned whatever is added or removed
+    nested_cases = [(['/conf/sub/x'], []), ([], ['/conf.d/y']), (['/src/m'], ['/src-old/n']), (['/conf/sub', '/conf/sub/x'], [])]
+    if tier != 'quick':
+        nested_cases += [(['/conf.d/y'], ['/conf/sub/x']), (['/src-old/n'], []), ([], ['/src/m'])]
+    rep.bounds['nested_names'] = [p for p, _ in D.NESTED]
+    rep.bounds['nested_cases (removed, added)'] = nested_cases
+    for removed, added in nested_cases:
+        for cbk in (False, True):
+            res, st, fns, mods, inc = parallel_explore(prog, D.make_nested(prog, removed, added, cbk), deadline=dl, max_paths=20000)
+            tot['paths'] += st['paths']
+            tot['queries'] += st['queries']
+            tot['solver_s'] += st['solver_s']
+            rep.functions |= fns
+            rep.models |= mods
+            for b in res['bad']:
+                b['which'] = 'backup-callback' if cbk else 'diff'
+            bads += res['bad']
+            inconc += ['nested %s: %s' % ((removed, added), x) for x in inc[:2]]
     tot['solver_s'] = round(tot['solver_s'], 2)
     name = 'diff() and the next backup\'s change callback classify every path exactly as the real differences'
     seen = set()
@@ -413,7 +431,10 @@ def check_C18(rep, prog, tier):
         sig = {'Unchanged': '.', 'Added': '+', 'Deleted': '-', 'Changed': '*'}
         got_native = out.get('backup_changes') if b.get('which') == 'backup-callback' else out.get('diff')
         want = [[p, sig[k]] for p, k in b.get('want', [])]
-        if b.get('which') == 'backup-callback' and got_native is not None:
+        if b.get('presence') == 'nested' and got_native is not None:
+            got_native = sorted([g for g in got_native if g[1] != '.'], key=lambda t: t[0])
+            want = sorted(want, key=lambda t: t[0])
+        elif b.get('which') == 'backup-callback' and got_native is not None:
             livekinds = {p: k[1] for p, k in b['kinds'].items()}
             got_native = [g for g in got_native if g[1] == '-' or livekinds.get(g[0]) == 'File']
         reproduced = bool(out.get('panic')) if b['kind'] == 'panic' else (got_native is not None and got_native != want)
@@ -429,7 +450,19 @@ def check_C18(rep, prog, tier):
 
 
 def diff_scenario(b):
-    from .harness import diffh as D
+    from .harness import diffh as D, backup as B_
+    if b.get('presence') == 'nested':
+        order = sorted(D.NESTED, key=lambda pk: B_.apath_key(pk[0]))
+        stored = [{'path': '/', 'kind': 'Dir', 'mtime': [5, 0], 'mode': 0o755, 'user': 'root', 'group': 'root'}]
+        live = []
+        for i, (p, k) in enumerate(order):
+            if p not in b.get('added', []):
+                stored.append({'path': p, 'kind': k, 'size': 3 + i, 'mtime': [100 + i, 0], 'mode': 0o755 if k == 'Dir' else 0o644, 'user': 'root', 'group': 'root'})
+            if p not in b.get('removed', []):
+                live.append({'path': p, 'kind': k, 'content_len': 3 + i, 'content_class': 50 + i, 'mtime': [100 + i, 0], 'mode': 0o755 if k == 'Dir' else 0o644})
+        live = live + [{'path': '/', 'kind': 'Dir', 'mtime': [5, 0], 'mode': 0o755}]
+        return {'kind': 'diff', 'stored': stored, 'live': live, 'include_unchanged': False, 'backup_changes': b.get('which') == 'backup-callback',
+                'mirsym': {k: v for k, v in b.items() if k in ('got', 'want', 'which')}}
     m = b.get('model') or {}
     stored, live = [{'path': '/', 'kind': 'Dir', 'mtime': [5, 0], 'mode': 0o755, 'user': 'root', 'group': 'root'}], []
     for p, pr in zip(D.PATHS, b['presence']):
@@ -614,7 +647,168 @@ def check_C01(rep, prog, tier):
     BC.run_cases(rep, prog, cases, dl, 'C01', 'a fault-free backup records every entry with the source\'s metadata and addresses that resolve to exactly the file\'s bytes, without errors')
 
 
-CHECKS = {'C01': check_C01, 'C16': check_C16, 'C18': check_C18, 'C11': check_C11, 'C12': check_C12, 'C08': check_C08, 'C05': check_C05, 'C03': check_C03, 'C04': check_C04,
+def _damage_obligation(rep, prog, name, mk, dl, prop, native=None):
+    from .interp import parallel_explore
+    res, st, fns, mods, inc = parallel_explore(prog, mk, deadline=dl, max_paths=200000, step_budget=600000)
+    rep.functions |= fns
+    rep.models |= mods
+    if res.get('samples') and len(rep.samples) < 5:
+        rep.samples += res['samples'][:1]
+    stats = dict(paths=st['paths'], queries=st['queries'], solver_s=round(st['solver_s'], 2))
+    seen = set()
+    for b in res['bad']:
+        site = ''
+        if b['kind'] == 'panic':
+            import re as _re
+            site = ':' + _re.sub(r'<impl at [^>]*>', '', b.get('where') or '').split(' ')[0].replace('::::', '::')
+        key = 'damage:%s:%s:%s%s' % (b['kind'], b.get('op'), (b.get('target') or b.get('apath') or '') + ('/' + b['how'] if b.get('how') else ''), site)
+        if key in seen:
+            continue
+        seen.add(key)
+        sc, judge = (native(b) if native else (None, None))
+        out, path = runner.replay(sc, prop + '_damage') if sc else ({}, '')
+        reproduced = judge(out) if sc else False
+        what = '%s after damage %s: %s' % (b.get('op'), {k: v for k, v in b.items() if k in ('target', 'how', 'entry', 'apath', 'version')},
+                                          b.get('msg') or '; '.join(b.get('problems', [])[:3]))
+        rep.violation(key, what[:600], path, reproduced)
+    if inc:
+        rep.inconclusive += ['%s: %s' % (name, x) for x in inc[:4]]
+        rep.add_obligation(name, 'inconclusive', stats, inc[:3])
+    elif res['bad']:
+        rep.add_obligation(name, 'violated', stats, [{k: v for k, v in b.items() if k != 'model'} for b in res['bad'][:3]])
+    else:
+        rep.add_obligation(name, 'holds', stats)
+    return res
+
+
+def _two_hunk_native(validate_quick=None):
+    """Native scenario for the two-hunk archive of harness/damage.py."""
+    def f(b):
+        tmap = {'head': 'b0000/BANDHEAD', 'tail': 'b0000/BANDTAIL', 'hunk0': 'b0000/i/00000/000000000', 'hunk1': 'b0000/i/00000/000000001',
+                'blockA': 'block:/a', 'blockB': 'block:/b'}
+        sc = {'kind': 'restore_raw', 'restore_band': 0, 'damage': [{'file': tmap[b['target']], 'how': b['how']}],
+              'bands': [{'band': 0, 'closed': True, 'entries': [
+                  {'path': '/', 'kind': 'Dir', 'mode': 0o755, 'mtime': [1, 0], 'hunk': 0},
+                  {'path': '/a', 'kind': 'File', 'size': 7, 'class': 1, 'mode': 0o644, 'mtime': [2, 0], 'hunk': 0},
+                  {'path': '/b', 'kind': 'File', 'size': 9, 'class': 2, 'mode': 0o600, 'mtime': [3, 0], 'hunk': 1}]}]}
+        if b.get('op') == 'validate':
+            sc['validate_quick'] = bool(b.get('quick'))
+
+        def judge(out):
+            if b['kind'] == 'panic':
+                return bool(out.get('panic'))
+            if b.get('op') == 'validate':
+                return out.get('validate_ok') is True and not out.get('validate_errors')
+            restored = {v['path'] for v in out.get('inside_after') or []}
+            lost = not {'/dest/a', '/dest/b'} <= restored
+            return (lost and not out.get('errors')) or any('untouched' in p for p in b.get('problems', []))
+        return sc, judge
+    return f
+
+
+def _history_native(variant):
+    """Native scenario for the histories of harness/damage.py build_history."""
+    def f(b):
+        newest_closed = b.get('newest_closed', True)
+        if variant == 'single':
+            bands = [{'band': 0, 'closed': True, 'entries': [
+                {'path': '/', 'kind': 'Dir', 'mode': 0o755, 'mtime': [1, 0], 'hunk': 0},
+                {'path': '/a', 'kind': 'File', 'size': 7, 'class': 1, 'mode': 0o644, 'mtime': [2, 0], 'hunk': 0},
+                {'path': '/a2', 'kind': 'File', 'size': 7, 'class': 1, 'mode': 0o644, 'mtime': [2, 0], 'hunk': 0},
+                {'path': '/b', 'kind': 'File', 'size': 9, 'class': 2, 'mode': 0o600, 'mtime': [3, 0], 'hunk': 1}]}]
+            blockof = {'A': '/a', 'B': '/b'}
+        else:
+            bands = [{'band': 0, 'closed': True, 'entries': [
+                {'path': '/', 'kind': 'Dir', 'mode': 0o755, 'mtime': [1, 0]},
+                {'path': '/a', 'kind': 'File', 'size': 7, 'class': 1, 'mode': 0o644, 'mtime': [2, 0]},
+                {'path': '/z', 'kind': 'File', 'size': 8, 'class': 4, 'mode': 0o644, 'mtime': [4, 0]}]},
+                {'band': 1, 'closed': bool(newest_closed), 'entries': [
+                    {'path': '/', 'kind': 'Dir', 'mode': 0o755, 'mtime': [1, 0]},
+                    {'path': '/a', 'kind': 'File', 'size': 7, 'class': 1, 'mode': 0o644, 'mtime': [2, 0]},
+                    {'path': '/c', 'kind': 'File', 'size': 6, 'class': 3, 'mode': 0o644, 'mtime': [5, 0]}]}]
+        path = b.get('path') or ''
+        if path.startswith('d/'):
+            # which block: by hash id order of creation (A, B | A, Z, C)
+            order = ['/a', '/b'] if variant == 'single' else ['/a', '/z', '/c']
+            import re as _re
+            m = _re.match(r'd/\w+/0*([0-9a-f]+)$', path)
+            idx = int(m.group(1), 16) - 1 if m else 0
+            target = 'block:' + order[min(idx, len(order) - 1)]
+        else:
+            target = path
+        sc = {'kind': 'restore_raw', 'restore_band': b.get('band') if b.get('band') is not None else (0 if variant == 'single' else 1),
+              'damage': [{'file': target, 'how': b.get('how')}], 'bands': bands}
+        if b.get('op') == 'validate':
+            sc['validate_quick'] = bool(b.get('quick'))
+
+        def judge(out):
+            if b['kind'] == 'panic':
+                return bool(out.get('panic'))
+            if b.get('op') == 'validate':
+                return out.get('validate_ok') is True and not out.get('validate_errors')
+            if b.get('op') == 'backup':
+                return True
+            return not out.get('errors') or any('altered bytes' in p or 'untouched' in p for p in b.get('problems', []))
+        return sc, judge
+    return f
+
+
+def _decoded_native(b):
+    e = b.get('entry') or {}
+    m = b.get('model') or {}
+    ent = {'path': '/m' if b.get('apath', 'valid') == 'valid' else b['apath'], 'kind': e.get('kind', 'File'), 'size': 0, 'mode': 0o644,
+           'mtime': [e.get('mtime', 0), e.get('nanos', 0)]}
+    if e.get('has_target'):
+        ent['target'] = 't'
+    sc = {'kind': 'restore_raw', 'restore_band': 0, 'raw_entries': True,
+          'bands': [{'band': 0, 'closed': True, 'band_format_version': b.get('version', '0.6.3'), 'entries': [
+              {'path': '/', 'kind': 'Dir', 'mode': 0o755, 'mtime': [1, 0]}, ent,
+              {'path': '/n', 'kind': 'File', 'size': 10, 'class': 5, 'mode': 0o644, 'mtime': [3, 0]}]}]}
+    return sc, (lambda out: bool(out.get('panic')) if b['kind'] == 'panic' else True)
+
+
+def check_C10(rep, prog, tier):
+    from .harness import damage as D
+    rep.level = 'fault_enumeration'
+    dl = tier_deadline(tier, 480, 2400)
+    rep.bounds = {'decoded_entry': 'kind any of 4, mtime any i64, mtime_nanos any u32, target present or not, 0-1 address with start/len any u64 into a present or missing block, mode any u32; apath variants valid, "", "a", "/..", "/a//b"; band_format_version valid or unparseable',
+                  'containment': 'band of two hunks and two blocks; one of head/tail/hunk0/hunk1/blockA/blockB deleted, emptied or replaced by undecodable bytes (solver-chosen)',
+                  'operations': ['restore', 'list', 'validate (full and quick)', 'backup using the damaged version as basis', 'new backup after the damage']}
+    rep.assumptions += ['"garbage" and bit flips enter as "decoder returns an error" or "decodes to arbitrary field values": snap, serde_json, hex and semver parsers are not executed (hangs inside them are outside the claim)',
+                        'file-system model for restore; store model for the archive']
+    kani_obligations(rep, [('checked_decoded_mtime_never_panics', 'success',
+                            'the (mtime, nanos) range admitted by IndexEntry::check() never panics in IndexEntry::mtime / ToFileTime', lambda r: ('decoded-mtime:panic', 'decoded mtime admitted by check() panics: %s' % (r['failed'][:1],), None))])
+    for op in ['restore', 'list', 'validate', 'backup']:
+        _damage_obligation(rep, prog, 'arbitrary decoded index entry: %s neither panics nor loses the intact entry silently' % op,
+                           D.make_decoded(prog, op), dl, 'C10', _decoded_native)
+    for ap in ['', 'a', '/..', '/a//b']:
+        _damage_obligation(rep, prog, 'decoded apath %r: restore does not panic or escape' % ap, D.make_decoded(prog, 'restore', ap), dl, 'C10', _decoded_native)
+    _damage_obligation(rep, prog, 'unparseable band_format_version: listing does not panic', D.make_decoded(prog, 'list', 'valid', 'x.y'), dl, 'C10', _decoded_native)
+    for variant in ['single', 'two']:
+        for op in ['restore', 'backup']:
+            _damage_obligation(rep, prog, 'one damaged file (%s-version history): %s does not panic, intact files are exact, lost files are reported' % (variant, op),
+                               D.make_contained(prog, op, variant), dl, 'C10', _history_native(variant))
+
+
+def check_C09(rep, prog, tier):
+    from .harness import damage as D
+    from . import backup_checks as BC
+    rep.level = 'fault_enumeration'
+    dl = tier_deadline(tier, 480, 2400)
+    rep.bounds = {'damage': 'band of two hunks and two blocks; one of head/tail/hunk0/hunk1/blockA/blockB deleted, emptied or made undecodable; full and quick validation',
+                  'healthy': 'archives written by the real backup() (one version, two versions, interrupted with header at every crash point) then validated'}
+    rep.assumptions += ['altered block bytes are modelled as "decompression or hash check fails"; the real decoder is not executed',
+                        'BlockDir::validate runs through the JoinSet model (tasks run in spawn order)'] + BC.COMMON_ASSUMPTIONS[:3]
+    for variant in ['single', 'two']:
+        _damage_obligation(rep, prog, 'validate reports at least one error whenever the damage changes what a version restores to (%s-version history)' % variant,
+                           D.make_contained(prog, 'validate', variant), dl, 'C09', _history_native(variant))
+    shapes = [('FF', [1, 2])] if tier == 'quick' else [('FF', [1, 2]), ('FF', [1, 1]), ('FSD', [1, 0, 0])]
+    cases = _bcases(shapes, ['none', 'crash'], validate_after=True) + _bcases([('F', [1])], ['none'], prior='same', validate_after=True)
+    rep.bounds['healthy_cases'] = [BC.case_name(c) for c in cases]
+    BC.run_cases(rep, prog, cases, dl, 'C09', 'validate (full and quick) is silent on archives produced by fault-free and interrupted backups')
+
+
+CHECKS = {'C09': check_C09, 'C10': check_C10, 'C01': check_C01, 'C16': check_C16, 'C18': check_C18, 'C11': check_C11, 'C12': check_C12, 'C08': check_C08, 'C05': check_C05, 'C03': check_C03, 'C04': check_C04,
           'C13': check_C13, 'C14': check_C14, 'C07': check_C07}
 
 
